@@ -12,9 +12,14 @@ CK_RV vp_rv;
 #define P0 OUT(pos0)
 #define L0 OUT(len0)
 #define FILE_AT(i) vp_in_file[i]
-static CK_ULONG dec8(CK_ULONG p) { CK_ULONG v = 0; for (int i = 0; i < 8; i++) v = (v << 8) | (p + i < VP_FILE_MAX ? vp_in_file0[p + i] : 0); return v; }
+#define B0(p, k) ((p) + (k) < VP_FILE_MAX ? (CK_ULONG)vp_in_file0[(p) + (k)] : 0)
+static CK_ULONG dec8(CK_ULONG p) { return (B0(p,0) << 56) | (B0(p,1) << 48) | (B0(p,2) << 40) | (B0(p,3) << 32) | (B0(p,4) << 24) | (B0(p,5) << 16) | (B0(p,6) << 8) | B0(p,7); }
 /* the 8 bytes of the CURRENT file at p are the big-endian encoding of v */
-static int is_be8(CK_ULONG p, CK_ULONG v) { for (int i = 0; i < 8; i++) if (p + i >= VP_FILE_MAX || vp_in_file[p + i] != (unsigned char)((v >> (56 - 8 * i)) & 0xff)) return 0; return 1; }
+#define BE(p, v, k) ((p) + (k) < VP_FILE_MAX && vp_in_file[(p) + (k)] == (unsigned char)(((v) >> (56 - 8 * (k))) & 0xff))
+#define BC(p, k) ((p) + (k) < VP_FILE_MAX ? (CK_ULONG)vp_in_file[(p) + (k)] : 0)
+/* big-endian value at p of the CURRENT file (= the initial one in a precondition) */
+static CK_ULONG dec8cur(CK_ULONG p) { return (BC(p,0) << 56) | (BC(p,1) << 48) | (BC(p,2) << 40) | (BC(p,3) << 32) | (BC(p,4) << 24) | (BC(p,5) << 16) | (BC(p,6) << 8) | BC(p,7); }
+static int is_be8(CK_ULONG p, CK_ULONG v) { return BE(p,v,0) && BE(p,v,1) && BE(p,v,2) && BE(p,v,3) && BE(p,v,4) && BE(p,v,5) && BE(p,v,6) && BE(p,v,7); }
 #define PRE __CPROVER_requires(FST(LEN) <= VP_FILE_MAX && FST(POS) <= FST(LEN) && vp_g_fio[0] == 0 && vp_g_fio[1] == 0)
 #define ROOM(n) (P0 + (n) <= VP_FILE_MAX)
 #define WOK (IN(valid) && !FST(WRITE_FAILS))
@@ -71,11 +76,11 @@ __CPROVER_assigns(__CPROVER_object_whole(vp_out));
 #define HDR (ROK && P0 + 24 <= L0)
 #define ONE_BOOL (HDR && AM_K == 1 && AM_LEN == 17 && P0 + 25 <= L0)
 #define ONE_ULONG (HDR && AM_K == 2 && AM_LEN == 24 && P0 + 32 <= L0)
-#define ONE_BYTES (HDR && AM_K == 3 && P0 + 32 <= L0 && AM_V <= L0 - P0 - 32 && AM_LEN == 24 + AM_V)
+#define ONE_BYTES (HDR && AM_K == 3 && P0 + 32 <= L0 && AM_V <= L0 - P0 - 32 && AM_V <= 6 && AM_LEN == 24 + AM_V)
 #define ONE_MECH (HDR && AM_K == 5 && P0 + 32 <= L0 && AM_V == 1 && P0 + 40 <= L0 && AM_LEN == 32)
 void vp_readAttrMap(void)
 PRE
-__CPROVER_requires(IN(w) == AM_T)
+__CPROVER_requires(IN(w) == dec8cur(FST(POS) + 8))     /* the witness key is the type field of the first entry */
 __CPROVER_ensures((ROK && P0 + 8 <= L0 && AM_LEN == 0) ==> (OUT(ret) == 1 && OUT(size) == 0 && FST(POS) == P0 + 8))
 __CPROVER_ensures(ONE_BOOL ==> (OUT(ret) == 1 && OUT(size) == 1 && OUT(has_w) && OUT(kind_w) == 1 && OUT(val_w) == (vp_in_file0[P0 + 24] != 0) && FST(POS) == P0 + 25))
 __CPROVER_ensures(ONE_ULONG ==> (OUT(ret) == 1 && OUT(size) == 1 && OUT(has_w) && OUT(kind_w) == 2 && OUT(val_w) == AM_V && FST(POS) == P0 + 32))
@@ -94,6 +99,6 @@ void h_writeMechSet(void) { HAVOC(); vp_call_writeMechSet(); VP_COVER(OUT(ret) =
 void vp_call_readMechSet(void) { vp_readMechSet(); }
 void h_readMechSet(void) { HAVOC(); vp_call_readMechSet(); VP_COVER(OUT(ret) == 1 && OUT(size) == 3 && OUT(has_w)); VP_COVER(OUT(ret) == 0 && ROK && P0 + 8 <= L0); VP_COVER(OUT(ret) == 1 && OUT(size) == 0); }
 void vp_call_writeAttrMap(void) { vp_writeAttrMap(); }
-void h_writeAttrMap(void) { HAVOC(); vp_call_writeAttrMap(); VP_COVER(OUT(ret) == 1 && IN(n) == 1 && IN(k0) == 3 && BLEN(IN(v0)) == 3); VP_COVER(OUT(ret) == 1 && TWO && IN(k0) == 2); VP_COVER(OUT(ret) == 1 && IN(n) == 1 && IN(k0) == 5); VP_COVER(OUT(ret) == 1 && IN(n) == 0); VP_COVER(OUT(ret) == 0 && WOK); }
+void h_writeAttrMap(void) { HAVOC(); vp_call_writeAttrMap(); VP_COVER(OUT(ret) == 1 && IN(n) == 1 && IN(k0) == 3 && BLEN(IN(v0)) == 3); VP_COVER(OUT(ret) == 1 && TWO && IN(k0) == 1 && IN(v0) && !IN(v1)); VP_COVER(OUT(ret) == 1 && IN(n) == 1 && IN(k0) == 5); VP_COVER(OUT(ret) == 1 && IN(n) == 0); VP_COVER(OUT(ret) == 0 && WOK); }
 void vp_call_readAttrMap(void) { vp_readAttrMap(); }
 void h_readAttrMap(void) { HAVOC(); vp_call_readAttrMap(); VP_COVER(ONE_BOOL && OUT(val_w)); VP_COVER(ONE_BYTES && AM_V == 5); VP_COVER(ONE_MECH); VP_COVER(OUT(ret) == 1 && OUT(size) == 2); VP_COVER(OUT(ret) == 0 && HDR && AM_K == 4); VP_COVER(ONE_ULONG); }
